@@ -206,6 +206,14 @@ def has_ready(b):
 LIST_OPS = [{"op": "clean"}, {"op": "list_json"}, {"op": "list"}, {"op": "list_all_json"}, {"op": "list_all"}]
 
 
+def kitchen_sink(ctx, kinds, L, n):
+    """a simulated family with every generator dimension switched on; unit / suffix / tag separator rotate with the seed"""
+    sd = ctx.seed
+    return lines_gen(L, 3, 5, kinds, unit=["  ", "\t", " \t", "    "][sd % 4], base=sd % 2, free=(0, 1, 2), ws=(1, 2), blank=True,
+                     suffix=["", "é", "あ"][sd % 3], tag_sep=[" ", "\n     "][(sd // 2) % 2], inline=True, pairs=True,
+                     code_b=["", " = 1"][(sd // 3) % 2], simulate=(n, L))
+
+
 def block_jobs(ctx, invariants, ops, lite=False):
     """G_block: default-strategy elements, tags alone on their lines.  quick: one job; lite: smaller (heavy predicates)"""
     q = ctx.quick
@@ -224,6 +232,7 @@ def block_jobs(ctx, invariants, ops, lite=False):
                 lines_gen(5 if lite else 6, 2, 2, ["R", "T"], base=1, blank=True, tag_sep="\n     "),   # opening tags spanning two lines
                 lines_gen(4, 1, 1, ["R"], unit="\t ", base=2, blank=True),
                 lines_gen(14, 3, 5, ["R", "P", "S", "U", "T", "F"], ws=(2,), base=ctx.seed % 2, simulate=(15 if lite else 80, 14)),
+                kitchen_sink(ctx, ["R", "P", "S", "U", "T", "F"], 12, 10 if lite else 40),
                 dict(lines_gen(5 - d // 2, 2, 2, ["R", "P", "T"], ws=(2,)), cfg=html)]
         ctx.job("block", gens=gens, invariants=invariants, ops=ops, cfg={"ds": "<", "de": ">"}, nontrivial=has_ready)
         return
@@ -233,7 +242,8 @@ def block_jobs(ctx, invariants, ops, lite=False):
         ("block-two", [lines_gen(11, 1, 2, ["R"], base=0, ws=()), lines_gen(10, 2, 2, ["R", "P"], base=1, ws=())]),
         ("block-tab-mb", [lines_gen(7, 2, 2, ["R", "P"], unit="\t", base=1, ws=(1,)), lines_gen(8, 2, 2, ["R", "P"], base=1, ws=(2,), mb=True),
                           lines_gen(7, 2, 2, ["T", "F"], unit="    ", base=0, suffix="é")]),
-        ("block-sim", [lines_gen(14, 3, 5, ["R", "P", "S", "U", "T", "F"], ws=(2,), base=ctx.seed % 2, simulate=(20000, 14))]),
+        ("block-sim", [lines_gen(14, 3, 5, ["R", "P", "S", "U", "T", "F"], ws=(2,), base=ctx.seed % 2, simulate=(20000, 14)),
+                       kitchen_sink(ctx, ["R", "P", "S", "U", "T", "F"], 14, 6000)]),
         ("block-html", [dict(lines_gen(7, 2, 2, ["R", "P", "T"], ws=(2,)), cfg=html)]),
         ("block-two-line-tags", [lines_gen(7, 2, 2, ["R", "P", "T"], base=1, blank=True, tag_sep="\n     "),
                                  dict(lines_gen(6, 2, 2, ["R", "P"], blank=True, tag_sep="\n * "), cfg={"ds": "/* <", "de": "> */"})]),
@@ -263,7 +273,8 @@ def unwrap_jobs(ctx, invariants, ops, lite=False):
                 lines_gen(6, 2, 2, ["Ru", "P"], blank=False, base=1, tag_sep="\n     "),                # opening tags spanning two lines
                 lines_gen(6, 1, 1, ["Ru"], free=(0, 2), blank=False, base=1, code_b=" = 1"),       # interior blanks at the tag column
                 lines_gen(6, 1, 1, ["Ru"], unit="\t", free=(0, 2), blank=False, base=1, code_a=" "),
-                lines_gen(16, 3, 4, ["Ru", "R", "P", "Pu", "S"], free=(0, 1, 2), ws=(2,), simulate=(15 if lite else 80, 16))]
+                lines_gen(16, 3, 4, ["Ru", "R", "P", "Pu", "S"], free=(0, 1, 2), ws=(2,), simulate=(15 if lite else 80, 16)),
+                kitchen_sink(ctx, ["Ru", "R", "P", "Pu", "T", "Tu"], 14, 10 if lite else 40)]
         ctx.job("unwrap", gens=gens, invariants=invariants, ops=ops, cfg=cfg, nontrivial=has_ready)
         return
     sets = [
@@ -282,7 +293,8 @@ def unwrap_jobs(ctx, invariants, ops, lite=False):
         ("unwrap-interior-blanks", [lines_gen(8, 1, 1, ["Ru"], free=(0, 1, 2), blank=False, base=1, code_b=" = 1"),
                                     lines_gen(8, 1, 1, ["Ru"], unit="\t", free=(0, 2), blank=False, base=1, code_a=" "),
                                     lines_gen(9, 2, 2, ["Ru", "R"], unit="    ", free=(0,), blank=False, base=1, code_b=" = 1 ")]),
-        ("unwrap-sim", [lines_gen(16, 3, 4, ["Ru", "R", "P", "Pu", "S"], free=(0, 1, 2), ws=(2,), simulate=(20000, 16))]),
+        ("unwrap-sim", [lines_gen(16, 3, 4, ["Ru", "R", "P", "Pu", "S"], free=(0, 1, 2), ws=(2,), simulate=(20000, 16)),
+                        kitchen_sink(ctx, ["Ru", "R", "P", "Pu", "T", "Tu"], 16, 6000)]),
     ]
     for (name, gens) in sets:
         ctx.job(name, gens=gens, invariants=invariants, ops=ops, cfg=cfg, nontrivial=has_ready)
